@@ -350,12 +350,12 @@ func fnCommandList(ctx *cmdContext, args map[string]any) (output respValue, err 
 
 func fnSort(ctx *cmdContext, args map[string]any) (output respValue, err error) {
 	sourceKeyName := args["key"].(string)
-	byPattern, _ := args["by"].(string)
-	offset_count, hasOffset := args["offset_count"].(*orderedMap)
-	getPatternsAny, _ := args["get"].([]any)
+	byPattern, hasBy := args["by-pattern"].(string)
+	offset_count, hasOffset := args["limit"].(*orderedMap)
+	getPatternsAny, _ := args["get-pattern"].([]any)
 	_, isDesc := args["order.desc"]
 	_, isAlpha := args["sorting"] // this name may be a redis bug
-	destKeyName, _ := args["destination"].(string)
+	destKeyName, hasDest := args["destination"].(string)
 
 	start := -1
 	count := -1
@@ -373,7 +373,7 @@ func fnSort(ctx *cmdContext, args map[string]any) (output respValue, err error) 
 		getPatterns = append(getPatterns, str)
 	}
 
-	output = ctx.dsc.sort(sourceKeyName, byPattern, destKeyName, start, count, getPatterns, hasOffset, isDesc, isAlpha)
+	output = ctx.dsc.sort(sourceKeyName, byPattern, hasBy, destKeyName, hasDest, start, count, getPatterns, hasOffset, isDesc, isAlpha)
 	return
 }
 
